@@ -183,6 +183,9 @@ def run(run, model, proof):
     rng = run.rng
     thorough = run.tier == "thorough"
     run.rule = RULE
+    for w in scan_source.unexpected_stdout_writers(common.ROOT):
+        run.violation("scan:stdout-writer", "a decoder module writes to stdout where the published list has no such write: " + w,
+                      dict(kind="M", fn="scan", correspondence="harness/scan_source.PUBLISHED_STDOUT_WRITERS vs the source text", detail=w), no_input=True)
     prints = scan_source.stdout_prints(common.ROOT)
     allowed = [p for p in prints if p[0].endswith("peltool/peltool.py")]
     # SRC.parse(): print + exit(1) guarded by len(hexwords) < 8, unreachable because toJSON pads the list to 8 words (pad8 in the model)
